@@ -105,7 +105,12 @@ def cfg_text(spec="Spec", constants=None, invariants=(), properties=(), view=Non
     if constants:
         lines.append("CONSTANTS")
         for k, v in constants.items():
-            lines.append(f"  {k} = {tla_value(v)}")
+            if isinstance(v, int) and not isinstance(v, bool) and v < 0:
+                # the cfg grammar has no negative literals: Neg1 == -1 is defined in the MC module
+                assert v == -1
+                lines.append(f"  {k} <- Neg1")
+            else:
+                lines.append(f"  {k} = {tla_value(v)}")
     if view:
         lines.append(f"VIEW {view}")
     if constraint:
